@@ -200,9 +200,20 @@ def resolve_unwindset(h, info, gotobin, pretty_map):
         return labels, report
     loops = loops_of(gotobin)
     funcs = None
-    for (rx, which, bound) in h.unwindset:
+    # "fallback" rules come last: they give a bound to loops of the matching functions that no
+    # other rule has named (e.g. a loop that a refactoring moved into a new helper function)
+    rules = [x for x in h.unwindset if x[1] != "fallback"] + [x for x in h.unwindset if x[1] == "fallback"]
+    for (rx, which, bound) in rules:
         r = re.compile(rx)
         hit = 0
+        if which == "fallback":
+            named = set(l.rsplit(":", 1)[0] for l in labels)
+            for (label, fn, line) in loops:
+                if r.search(fn) and label not in named:
+                    labels.append("%s:%d" % (label, bound))
+                    report.append({"rule": rx, "kind": "loop (fallback)", "function": fn, "line": line, "bound": bound})
+                    hit += 1
+            continue
         if which == "rec":
             if funcs is None:
                 funcs = functions_of(gotobin)
